@@ -219,7 +219,7 @@ static sqfs_s32 toy_do_block(sqfs_compressor_t *base, const sqfs_u8 *in, sqfs_u3
 		return (sqfs_s32)n;
 	}
 
-	if (size < 5 || outsize < 4)
+	if (size < 5 || size >= (1U << 24) || outsize < 4)
 		return 0;
 	for (i = 1; i < size; ++i) {
 		if (in[i] != in[0])
